@@ -111,12 +111,14 @@ def op_strategy(draw, specs, mode):
     if mode == 'edge' and draw(st.integers(0, 11)) == 0:
         # unknown tag / unknown object
         kind = draw(st.sampled_from(['tag', 'object', 'attribute', 'attribute']))
-        op = {'svc': draw(st.sampled_from(['read_tag', 'write_tag', 'get_attr', 'read_frag', 'write_frag'])), 'tag': 'NoSuchTag',
+        op = {'svc': draw(st.sampled_from(['read_tag', 'write_tag', 'get_attr', 'read_frag', 'write_frag', 'gaa', 'gal'])), 'tag': 'NoSuchTag',
               'form': 'sym', 'case': 0, 'elem': None, 'count': 1, 'type': 'INT', 'values': [1], 'offset': 0,
               'sess': draw(st.integers(0, 1)), 'wrap': True}
-        if kind == 'object':
+        if kind == 'object' or (op['svc'] in ('gaa', 'gal') and kind != 'tag'):
             op['unknown_object'] = draw(st.sampled_from([[0x95, 1, 1], [0x93, 77, 1], [0xFFFE, 300, 1]]))
             op['form'] = 'num'
+        elif op['svc'] in ('gaa', 'gal'):
+            op['svc'] = 'read_tag'
         elif kind == 'attribute':
             # an attribute that does not exist in an object that does (Message Router, or an addressed tag's instance)
             addressed = [s['address'] for s in specs if s.get('address')]
